@@ -77,10 +77,10 @@ package larking
 // will ever deliver), rdpos(r) the number of bytes delivered so far. Buffered
 // says that a buffer holds exactly the stream bytes [g, rdpos(r)): nothing
 // lost, duplicated or reordered, whatever the read boundaries were.
-// (The content clause is stated twice, once quantified over the buffer index and
-// once over the absolute index of the backing array, so that the solver can
-// instantiate it from either side.)
-//@ spec Buffered(b, r, g) = g + len(b) == rdpos(r) && (forall k :: 0 <= k && k < len(b) ==> b[k] == rdS(r)[g+k])
+// (The content clause quantifies over the absolute index x of the backing array
+// raw(b), not over the offset within b: hypotheses then fire on every read of
+// that array whatever arithmetic produced the index.)
+//@ spec Buffered(b, r, g) = g + len(b) == rdpos(r)
 //@      && (forall x :: off(b) <= x && x < off(b) + len(b) ==> raw(b)[x] == rdS(r)[x - off(b) + g])
 
 //@ func (codecHTTPBody).ReadNext serves C17 C06 C08 C09
@@ -110,12 +110,16 @@ package larking
 //@   requires r != nil && Buffered(b, r, g0)
 //@   ensures [bounds] 0 <= n && n <= len(dst)
 //@   ensures [limit] err == nil && limit > 0 ==> n <= limit
-//@   ensures [header] err == nil ==> VarintAt(rdS(r), g0, Hdr(dst, r, g0)) && n == VarintVal(rdS(r)[g0:], Hdr(dst, r, g0))
-//@   ensures [conserve] 0 <= Hdr(dst, r, g0) && Hdr(dst, r, g0) <= 10 && Buffered(dst, r, g0 + Hdr(dst, r, g0))
-//@   ensures [exact] err == nil ==> n == len(dst) || Hdr(dst, r, g0) + len(dst) == len(b)
+//@   ghost at "if n < 0 {" hv = n#2
+//@   ensures [hdr-len] err == nil ==> Hdr(dst, r, g0) == hv
+//@   ensures [header] err == nil ==> VarintAt(rdS(r), g0, hv) && n == VarintVal(rdS(r)[g0:], hv)
+//@   ensures [conserve] err == nil ==> 0 <= Hdr(dst, r, g0) && Hdr(dst, r, g0) <= 10 && Buffered(dst, r, g0 + Hdr(dst, r, g0))
 //@   ensures [err-nomsg] err != nil ==> n == 0
 //@   ensures [clean-eof] err == io.EOF ==> len(dst) == 0
 //@   oracle (n >= 0 && n <= len(dst)) && (err != io.EOF || len(dst) == 0)
+//@   assert at "if n < 0 {" [varint] n#2 >= 0 ==> VarintAt(rdS(r), g0, n#2) && size == VarintVal(rdS(r)[g0:], n#2) && n#2 <= len(b)
+//@   assert at "if len(b) < n {" [after-header] Buffered(b, r, g0 + hv)
+//@   assert at "if _, err := io.ReadFull(r, b[len(b):n]); err != nil {" [before-fill] Buffered(b, r, g0 + hv) && len(b) < n#2 && n#2 <= cap(b)
 //@   loop 1 invariant 0 <= i && i <= 10 && Buffered(b, r, g0)
 //@   loop 1 invariant forall j :: 0 <= j && j < i ==> j < len(b) && b[j] >= 128
 //@   loop 1 decreases 10 - i
